@@ -101,6 +101,8 @@ type DocConfig struct {
 	// LongBodyLen > 0 makes every stream body a text of exactly that many bytes
 	// which neither contains "endstream" nor ends in an end-of-line marker.
 	LongBodyLen int
+	// LongBodyEOL makes those bodies end in an end-of-line marker instead.
+	LongBodyEOL bool
 	// WithMetadata adds an XMP metadata stream to the catalog (needs version >= 1.4);
 	// PlaintextMetadata writes it unfiltered and unencrypted.
 	WithMetadata      bool
@@ -704,6 +706,9 @@ func BuildDoc(r *kit.Rand, cfg DocConfig) (*Doc, error) {
 			if cfg.LongBodyLen > 0 {
 				body = bytes.Repeat([]byte("plain text, one line after the other\n"), cfg.LongBodyLen/37+1)[:cfg.LongBodyLen]
 				body[len(body)-1] = '.'
+				if cfg.LongBodyEOL {
+					body[len(body)-1] = kit.Pick(r, []byte{'\n', '\r'})
+				}
 			}
 			if unit > 1 && !cfg.FaxStreams {
 				rows := r.Intn(6)
